@@ -396,7 +396,6 @@ theorem iter_spec (st : LoopSt) (sn : Option (List UInt8)) (oa od : Nat) (h : Sh
     obtain ⟨csh, cerr, cfr, cspan, cnf, cbe, csc⟩ := co
     have hce : c.p.err = .none := cerr.trans he
     have hfr : st.p.Frame c.p := cfr.toFrame
-    have : c.p.ncb = st.p.ncb := cfr.2.2.2.2.2.2.1
     have hsz : c.p.size = st.p.size := cfr.2.2.2.1
     have hsp0 := csh.hsp hce c.p.lvlIdx
     cases hob : objBlock (c.p.getLvl c.p.lvlIdx) c.tok with
